@@ -278,7 +278,7 @@ def _cj_dec(v):
     return v
 
 def case_to_corpus(c, origin):
-    kw = {k: _cj_enc(v) for k, v in c.items() if k not in ("fn", "args", "tag", "model")}
+    kw = {k: _cj_enc(v) for k, v in c.items() if k not in ("fn", "args", "tag", "model", "second_pass", "corpus")}
     return {"origin": origin, "fn": c["fn"], "args": _cj_enc(c["args"]), "tag": c["tag"], "model": c["model"], "kw": kw}
 
 def load_corpus(pid):
@@ -287,8 +287,9 @@ def load_corpus(pid):
         return []
     out = []
     for e in json.load(open(p)):
-        kw = {k: _cj_dec(v) for k, v in e.get("kw", {}).items()}
-        out.append(Case(e["fn"], _cj_dec(e["args"]), "corpus/" + e.get("tag", ""), e.get("model", True), **kw))
+        kw = {k: _cj_dec(v) for k, v in e.get("kw", {}).items() if k not in ("second_pass", "corpus")}
+        kw["corpus"] = e.get("origin", "")      # (the tag stays as generated: some oracles dispatch on it)
+        out.append(Case(e["fn"], _cj_dec(e["args"]), e.get("tag", ""), e.get("model", True), **kw))
     return out
 
 def load_known(pid):
@@ -302,15 +303,26 @@ def load_known(pid):
 
 def gen_cases(h, tier, seed):
     rng = random.Random(seed)
-    cases = []
-    seen = set()
-    for c in load_corpus(h.ID) + (h.corpus_cases() if hasattr(h, "corpus_cases") else []):
-        if c.key() not in seen:
-            seen.add(c.key()); cases.append(c)
+    generated, by_key = [], {}
     for c in h.cases(tier, rng):
         k = c.key()
+        if k not in by_key:
+            by_key[k] = c; generated.append(c)
+    # the corpus runs first; where the generator produces the same call, the GENERATED case is used in its place (its tag and
+    # oracle arguments are the current ones, the corpus entry only moves it to the front)
+    cases, seen = [], set()
+    for c in load_corpus(h.ID) + (h.corpus_cases() if hasattr(h, "corpus_cases") else []):
+        k = c.key()
         if k not in seen:
-            seen.add(k); cases.append(c)
+            seen.add(k)
+            if k in by_key:
+                g = by_key[k]; g["corpus"] = c.get("corpus", "")
+                cases.append(g)
+            else:
+                cases.append(c)
+    for c in generated:
+        if c.key() not in seen:
+            seen.add(c.key()); cases.append(c)
     return cases
 
 def run_impl(h, cases, budget, order=None, twice=False):
@@ -609,7 +621,7 @@ def main(argv):
         rc = 1
 
     # evidence
-    dist = collections.Counter(c["tag"] for c in cases)
+    dist = collections.Counter(("corpus:" if c.get("corpus") else "") + c["tag"] for c in cases)
     kinds = collections.Counter(obs_kind(o) for o in impl_obs)
     nontriv = len({c.key() for c, o in zip(cases, impl_obs) if obs_kind(o) == "ok"})
     sample_idx = sorted(set([0, len(cases) // 3, (2 * len(cases)) // 3, len(cases) - 1])) if cases else []
